@@ -86,6 +86,15 @@ Clauses(pre, e, post) == [
   C09_RateUnfitted   |-> (e.op = "rate" /\ Ok(e) /\ ~e.pseudo
                           /\ Sane(pre) /\ ~Fitted(pre))
                            => e.retnum.m1 \/ (e.retnum.zero /\ pre.short),
+  \* precedence of the statement: a failed binary criterion gives 0, else
+  \* undefined features give -1
+  \* (owed for a fitted curve; without a fit the statement allows -1 or 0)
+  C09_BinaryGivesZero |->
+      (e.op = "rate" /\ Ok(e) /\ ~e.pseudo /\ Fitted(pre) /\ e.binfail)
+        => e.retnum.zero,
+  C09_UndefinedGivesMinusOne |->
+      (e.op = "rate" /\ Ok(e) /\ ~e.pseudo /\ Fitted(pre) /\ ~e.binfail
+       /\ e.contnan) => e.retnum.m1,
   C09_RateFresh      |-> (e.op = "rate" /\ Ok(e) /\ ~e.pseudo /\ Fitted(pre))
                            => e.ret = e.expect,
   C09_RateRange      |-> (e.op = "rate" /\ Ok(e) /\ e.tree)
